@@ -11,7 +11,7 @@ def extract(g, X):
     om = X.strip_comments(X.read("pdf/src/object/mod.rs"))
     en = X.strip_comments(X.read("pdf/src/encoding.rs"))
 
-    def page_depth():
+    def sf_page_depth():
         b = X.fn_body(ty, "page")
         m = re.search(r"self\.page_limited\(\s*resolve\s*,\s*page_nr\s*,\s*(\d+)\s*\)", b)
         # the budget must be tested before anything else and decremented on descent
@@ -21,7 +21,7 @@ def extract(g, X):
         if not re.search(r"page_limited\(\s*resolve\s*,\s*page_nr\s*-\s*pos\s*,\s*depth\s*-\s*1\s*\)", lim):
             raise ValueError("page_limited no longer descends with depth - 1")
         return m.group(1)
-    g.attempt([("page_depth", "N")], "object/types.rs:PageTree::page", page_depth)
+    g.attempt([("sf_page_depth", "N")], "object/types.rs:PageTree::page", sf_page_depth)
 
     def tree_depth():
         vals = re.findall(r"self\.walk_limited\(\s*r\s*,\s*callback\s*,\s*(\d+)\s*,", ty)
@@ -86,7 +86,7 @@ def extract(g, X):
         if len(mult) != 1:
             raise ValueError("length multipliers: %r" % (mult,))
         return mult.pop(), div.group(1), v1.group(1), mod.group(1)
-    g.attempt([("crypt_len_mult", "N"), ("crypt_bits_div", "N"), ("crypt_v1_bits", "N"), ("crypt_bits_mod", "N")],
+    g.attempt([("crypt_len_mult", "N"), ("crypt_bits_div", "N"), ("crypt_v1_bits", "N"), ("sf_crypt_bits_mod", "N")],
               "crypt.rs:Decoder::from_password", crypt)
 
     def diff():
